@@ -235,41 +235,68 @@ theorem commit_without_write_loses_change :
 
 /-! ### the whole `HAProxyUpdate` (end-to-end): the dynamic-update gate in front of `writeConfig` -/
 
-/-- whenever an added backend is left after `Shrink`, or no update ran since the last
-`config.Clear`, the gated update IS the update cycle of `disk_eq_items` -/
-theorem updateGated_eq_update (sh : Sh p) (committed : Bool) (w : World p)
-    (h : committed = false ∨ ∃ x, ((shrink sh w.store).add x).isSome = true) :
-    updateGated sh committed w = step sh w .update := by
-  unfold updateGated
-  have : (committed && !(anyFin fun x => ((shrink sh w.store).add x).isSome)) = false := by
-    rcases h with h | h
-    · simp [h]
-    · simp [(anyFin_iff _).2 h]
-  simp only [this]
-  rfl
+theorem stepG_inv {sh : Sh p} (wf : sh.WF) {g : GWorld p} (h : Inv sh g.w) (op : Op p)
+    (hok : okOp g.w.store op = true) : Inv sh (stepG sh g op).w := by
+  cases op with
+  | update => exact (updateGated_good wf h g.committed).2.2
+  | acquire x c => exact step_inv wf h _ hok
+  | removeAll xs => exact step_inv wf h _ hok
+  | clear => exact step_inv wf h _ hok
+  | shrink => exact step_inv wf h _ hok
+  | write => simp [okOp] at hok
+  | commit => simp [okOp] at hok
 
-/-- FULL-STRENGTH STATEMENT THAT DOES NOT HOLD for the whole `HAProxyUpdate`:
-`∀ hist, allOk … → after every gated update, disk k = itemsIn k`.
-Counter-example (finding `stale-backend-on-disk-noop-update`): a batch that only removes backends.
-The dynamic updater ignores removed backends without a counterpart, reports "old and new
-configurations match", `writeConfig` is skipped and the deferred `Commit` drops the shard flag:
-the removed backend stays in its file (until that shard changes again). -/
+theorem runG_inv {sh : Sh p} (wf : sh.WF) (ops : List (Op p)) : ∀ {g : GWorld p}, Inv sh g.w →
+    allOkG sh g ops = true → Inv sh (runG sh g ops).w := by
+  induction ops with
+  | nil => intro g h _; exact h
+  | cons op ops ih =>
+    intro g h hok
+    simp only [allOkG, Bool.and_eq_true] at hok
+    exact ih (stepG_inv wf h op hok.1) hok.2
+
+theorem runG_append (sh : Sh p) (g : GWorld p) (a b : List (Op p)) :
+    runG sh g (a ++ b) = runG sh (runG sh g a) b := by
+  simp [runG, List.foldl_append]
+
+theorem allOkG_append (sh : Sh p) (a b : List (Op p)) : ∀ (g : GWorld p),
+    allOkG sh g (a ++ b) = (allOkG sh g a && allOkG sh (runG sh g a) b) := by
+  induction a with
+  | nil => intro g; simp [allOkG, runG]
+  | cons op a ih => intro g; simp [allOkG, runG, ih, Bool.and_assoc]
+
+/-- **C05 end-to-end.**  The same statement for the whole `HAProxyUpdate`, whose `writeConfig` is
+only reached when `!updated || cmdCnt > 0 || Backends().Changed()`: for every disciplined history,
+after every `HAProxyUpdate` every file equals the items of its shard — when the write is skipped
+nothing was pending, so the files were already exact. -/
+theorem disk_eq_items_e2e (sh : Sh p) (wf : sh.WF) (hist : List (Op p))
+    (hok : allOkG sh {} (hist ++ [.update]) = true) :
+    ∀ k x, (runG sh {} (hist ++ [.update])).w.disk k x =
+      if sh.shardOf x = k then (runG sh {} (hist ++ [.update])).w.store.items x else none := by
+  rw [allOkG_append] at hok
+  simp only [Bool.and_eq_true] at hok
+  have h := runG_inv wf hist (g := {}) (inv_init sh) hok.1
+  rw [runG_append]
+  exact (updateGated_good wf h _).1
+
+/-- non-vacuity: the second update is skipped (nothing pending), the third one removes a backend
+without any other change and is NOT skipped -/
+example :
+    let hist : List (Op 2) := [.acquire 0 c1, .acquire 1 c1, .update, .removeAll [0], .acquire 0 c1, .update,
+      .removeAll [0]]
+    allOkG sh3 {} (hist ++ [.update]) = true ∧ (runG sh3 {} hist).w.disk 2 0 = some c1 ∧
+    (runG sh3 {} (hist ++ [.update])).w.disk 2 0 = none := by decide
+
+/-- historical witness (repaired by the `fix:` commit on `HAProxyUpdate`, finding
+`stale-backend-on-disk-noop-update`): with the old gate a batch that only removes backends was
+reported as "old and new configurations match", `writeConfig` was skipped and the deferred
+`Commit` dropped the shard flag — the removed backend stayed in its file -/
 theorem noop_update_keeps_removed_backend :
     let w1 := run sh3 {} [.acquire 0 c1, .acquire 1 c1, .update, .removeAll [0]]
-    let w2 := updateGated sh3 true w1
+    let w2 := updateGatedOld sh3 true w1
     allOk sh3 {} [.acquire 0 c1, .acquire 1 c1, .update, .removeAll [0], .update] = true ∧
     w2.store.items 0 = none ∧ w2.disk 2 0 = some c1 ∧ w2.store.changed 2 = false ∧
-    (step sh3 w1 .update).disk 2 0 = none := by decide
-
-/-- what IS proved for the gated update: the files are exact after every update that is not a
-remove-only batch on committed data -/
-theorem disk_eq_items_gated_partial (sh : Sh p) (wf : sh.WF) (hist : List (Op p)) (committed : Bool)
-    (hok : allOk sh {} hist = true)
-    (h : committed = false ∨ ∃ x, ((shrink sh (run sh {} hist).store).add x).isSome = true) :
-    ∀ k x, (updateGated sh committed (run sh {} hist)).disk k x =
-      itemsIn sh (updateGated sh committed (run sh {} hist)).store k x := by
-  rw [updateGated_eq_update sh committed _ h]
-  exact (update_good wf (run_inv wf hist (inv_init sh) hok)).1
+    (updateGated sh3 true w1).disk 2 0 = none := by decide
 
 /-! ### hosts / frontend maps guard -/
 
@@ -328,7 +355,8 @@ example :
 
 /-- `Backends.Clear` inspects the OLD shards and flags the NEW object; `Shrink` recomputes the
 flags through `BackendChanged`; `HAProxyUpdate` shrinks before writing and defers `Commit`;
-`writeConfig` renders the main file and then `ChangedShards()` only, when `BackendShards > 0`;
+`writeConfig` is called when `!updated || cmdCnt > 0 || Backends().Changed()` and renders the
+main file and then `ChangedShards()` only, when `BackendShards > 0`;
 `WriteFrontendMaps` is guarded by `Maps != nil && !hosts.Changed()` -/
 theorem facts_c05 :
     Facts.c05ClearRange = ["b.shards"] ∧
@@ -340,6 +368,7 @@ theorem facts_c05 :
     Facts.c05UpdateCalls = ["i.config.Commit", "i.config.SyncConfig", "i.config.Shrink",
       "i.config.WriteTCPServicesMaps", "i.config.WriteFrontendMaps", "i.config.WriteBackendMaps",
       "i.writeCrtLists", "i.writeConfig"] ∧
+    Facts.c05WriteConfigGate = ["!updated||updater.cmdCnt>0||i.config.Backends().Changed()"] ∧
     Facts.c05WriteConfigCalls = ["i.haproxyTmpl.Write", ".ChangedShards", "i.haproxyTmpl.WriteOutput",
       ".BuildSortedShard"] ∧
     Facts.c05WriteConfigCmps = ["i.options.BackendShards > 0"] ∧
